@@ -1,6 +1,8 @@
 package mem2reg
 
 import (
+	"sort"
+
 	"github.com/gogpu/naga/ir"
 )
 
@@ -63,7 +65,7 @@ func newPhiWalker(ctx *promotionContext) *phiWalker {
 		candidates:   selectStructuredCandidates(ctx),
 	}
 	// Seed initial values from each candidate's Init or a fresh ZeroValue.
-	for v := range w.candidates {
+	for _, v := range sortedVars(w.candidates) {
 		w.currentValue[v] = initialValueOf(ctx, v)
 	}
 	return w
@@ -231,7 +233,7 @@ func (w *phiWalker) handleIf(stmtPtr *ir.Statement) []ir.Statement {
 	}
 
 	var phis []ir.Statement
-	for v := range w.candidates {
+	for _, v := range sortedVars(w.candidates) {
 		va, haveA := acceptValues[v]
 		vr, haveR := rejectValues[v]
 		if !haveA && !haveR {
@@ -282,7 +284,7 @@ func (w *phiWalker) handleSwitch(stmtPtr *ir.Statement) []ir.Statement {
 	stmtPtr.Kind = ir.StmtSwitch{Selector: sk.Selector, Cases: cases}
 
 	var phis []ir.Statement
-	for v := range w.candidates {
+	for _, v := range sortedVars(w.candidates) {
 		// Decide whether ANY case wrote to v.
 		writes := false
 		for ci := range caseValues {
@@ -433,5 +435,18 @@ func snapshotValues(m map[uint32]ir.ExpressionHandle) map[uint32]ir.ExpressionHa
 	for k, v := range m {
 		out[k] = v
 	}
+	return out
+}
+
+// sortedVars returns the keys of a candidate set in ascending order. The
+// walkers append expressions (zero values, phis) while visiting candidates;
+// visiting them in map order would make expression numbering - and with it
+// the emitted module - differ from one compilation to the next.
+func sortedVars(set map[uint32]struct{}) []uint32 {
+	out := make([]uint32, 0, len(set))
+	for v := range set {
+		out = append(out, v)
+	}
+	sort.Slice(out, func(i, j int) bool { return out[i] < out[j] })
 	return out
 }
